@@ -233,7 +233,10 @@ def findEntry (s : St) (id : Nat) : Option Entry := s.inflight.find? (·.id == i
 
 def removeTimer (s : St) (key : Nat) : St :=
   match s.timers.remove key with
-  | some (q, _) => { s with timers := q }     -- (the emptying-remove wake is a self-wake; ignored)
+  | some (q, woke) =>
+      -- the emptying remove wakes the waker the queue stored: the dispatch's own (a self-wake)
+      let s := { s with timers := q }
+      if woke then wakeDispatch s else s
   | none => emit { s with poisoned := true } (.panic (tid s) "deadlines.remove: invalid key")
 
 /-- `complete_request`: remove, disarm the timer, send the result. -/
@@ -253,15 +256,22 @@ def cancelRequest (s : St) (id : Nat) : St × Option Entry :=
       let s := { s with inflight := s.inflight.filter (·.id != id) }
       (removeTimer s e.timerKey, some e)
 
+/-- The timeout a deadline timer is armed with: clamped to `MAX_DEADLINE_TIMEOUT` if the source does so
+(`Gen.clientTimerClampSecs`, read off `client/in_flight_requests.rs`; 0 = not clamped). -/
+def clampTimeout (t : Nat) : Nat :=
+  if Gen.clientTimerClampSecs == 0 then t else min t (Gen.clientTimerClampSecs * 1000000000)
+
 /-- `insert_request`; `none` = the code panicked. -/
 def insertRequest (s : St) (now : Nat) (r : DReq) : Option St :=
   if (findEntry s r.id).isSome then
     some (emit { s with poisoned := true } (.panic (tid s) "Request IDs should be unique"))
   else
-    match s.timers.insert now (r.ctx.deadline - now) r.id with
+    match s.timers.insert now (clampTimeout (r.ctx.deadline - now)) r.id with
     | (_, .panic, _) => some (emit { s with poisoned := true } (.panic (tid s) "DelayQueue::insert: invalid deadline"))
-    | (q, .ok key, _) =>
-        some { s with timers := q, inflight := s.inflight ++ [{ id := r.id, cid := r.cid, ctx := r.ctx, timerKey := key }] }
+    | (q, .ok key, woke) =>
+        -- an insert that moves the queue's `Sleep` earlier wakes the stored waker: a self-wake
+        let s := { s with timers := q, inflight := s.inflight ++ [{ id := r.id, cid := r.cid, ctx := r.ctx, timerKey := key }] }
+        some (if woke then wakeDispatch s else s)
 
 /-! ### the write pump -/
 
@@ -472,8 +482,11 @@ def shutDown (s : St) (a : Activity) : St × Bool :=
   let s := failAll s a
   drainLoop (s.pq.length + 1) s a
 
+/-- An upper bound on the iterations of `run` (the real loop has no bound): every iteration that loops consumes
+an inbound item, a queued request (which may arm one timer), a queued cancellation or an armed timer
+(`Flow.run_no_spin` in `Lemmas/ClientFlowSpin.lean`: this fuel never runs out). -/
 def runFuel (s : St) : Nat :=
-  s.t.inbound.length + s.pq.length + s.cq.length + s.timers.len + 4
+  s.t.inbound.length + 2 * s.pq.length + s.cq.length + s.timers.len + 4
 
 /-- `RequestDispatch::poll`. -/
 def pollDispatchCore (s : St) (now : Nat) : St × Ret :=
